@@ -92,6 +92,9 @@ class Operator(Token):
     def ast(self, tokens, stack, builder):
         super(Operator, self).ast(tokens, stack, builder)
         self.update_name(tokens, stack)
+        if self.get_n_args == 2 and len(tokens) > 1 and isinstance(
+                tokens[-2], Separator):
+            raise FormulaError()  # Binary operator without left operand.
         pred = self.pred
         while stack and isinstance(stack[-1], Operator):
             if pred > stack[-1].pred:
